@@ -231,7 +231,10 @@ CheckOp(ev) ==
                   \cup (IF got[h].c = exp.ent[h].c /\ got[h].t # exp.ent[h].t THEN {V(Cls(h, "t"), <<h, got[h].t>>)} ELSE {})
                   : h \in common}
         vLock == IF ev.st.locked # Locked(exp)
-                 THEN {V(IF ~x.pre \/ ev.panic THEN "C10.lock-state-changed" ELSE "C07.locked-mismatch", ev.st.locked)} ELSE {}
+                 THEN {V(IF ~x.pre \/ ev.panic THEN "C10.lock-state-changed" ELSE "C07.locked-mismatch", ev.st.locked)}
+                      \* C07 as well: a rejected query / batch that leaves the world locked although no query is open
+                      \cup (IF (~x.pre \/ ev.panic) /\ ev.st.locked /\ ~Locked(exp) THEN {V("C07.locked-no-query", ev.op)} ELSE {})
+                 ELSE {}
         \* batch callbacks: exactly once per selected entity (C06)
         \* batch callbacks (C06): exactly once per entity the operation changes, at most once per other
         \* selected entity (a SetRelationsBatch that leaves an entity's targets unchanged need not call back),
